@@ -226,5 +226,12 @@ fn get_activity_time(activity: &FormatActivity, stop_schedule: &FormatSchedule) 
 }
 
 fn get_route_start_time(tour: &FormatTour) -> Result<Timestamp, GenericError> {
-    tour.stops.first().map(|stop| parse_time(&stop.schedule().departure)).ok_or_else(|| "empty route".into())
+    // NOTE a break served at the start location is a part of the first stop: use the time of the departure activity
+    tour.stops
+        .first()
+        .map(|stop| {
+            let activity_time = stop.activities().first().and_then(|activity| activity.time.as_ref());
+            parse_time(activity_time.map_or(&stop.schedule().departure, |time| &time.end))
+        })
+        .ok_or_else(|| "empty route".into())
 }
